@@ -254,6 +254,7 @@ type agentScript struct {
 	earlyDrops bool // some records are dropped by an input-stage extraction (C19: known finding F-12)
 	chatty     bool // one more client keeps sending (gaps shorter than the flush interval) right through every stop
 	linger     bool // client connections stay open through the stop
+	nostamp    bool // some records carry no "[stamp] " prefix: their stamp field must stay empty (C12)
 	twoOut     bool // a second output with its own upstream, which never ACKs before the last generation
 	quietLast  bool // the last generation receives no new records
 }
@@ -268,7 +269,7 @@ func (s agentScript) op() Op {
 		up = "-"
 	}
 	return Op{Name: "agent script", Strs: []string{s.mode, s.quota, up, strings.Join(stop, ",")},
-		Ints: []int64{int64(s.maxDurMs), int64(s.gens), int64(s.conns), int64(s.recs), int64(s.apps), s.seed, b2i(s.hostile), b2i(s.earlyDrops), b2i(s.chatty), b2i(s.linger), b2i(s.twoOut), b2i(s.quietLast)}}
+		Ints: []int64{int64(s.maxDurMs), int64(s.gens), int64(s.conns), int64(s.recs), int64(s.apps), s.seed, b2i(s.hostile), b2i(s.earlyDrops), b2i(s.chatty), b2i(s.linger), b2i(s.twoOut), b2i(s.quietLast), b2i(s.nostamp)}}
 }
 
 func b2i(b bool) int64 {
@@ -281,7 +282,7 @@ func b2i(b bool) int64 {
 func agentScriptOf(o Op) agentScript {
 	s := agentScript{mode: o.Strs[0], quota: o.Strs[1], maxDurMs: int(o.Ints[0]), gens: int(o.Ints[1]), conns: int(o.Ints[2]),
 		recs: int(o.Ints[3]), apps: int(o.Ints[4]), seed: o.Ints[5], hostile: len(o.Ints) > 6 && o.Ints[6] != 0, earlyDrops: len(o.Ints) > 7 && o.Ints[7] != 0, chatty: len(o.Ints) > 8 && o.Ints[8] != 0, linger: len(o.Ints) > 9 && o.Ints[9] != 0,
-		twoOut: len(o.Ints) > 10 && o.Ints[10] != 0, quietLast: len(o.Ints) > 11 && o.Ints[11] != 0}
+		twoOut: len(o.Ints) > 10 && o.Ints[10] != 0, quietLast: len(o.Ints) > 11 && o.Ints[11] != 0, nostamp: len(o.Ints) > 12 && o.Ints[12] != 0}
 	if o.Strs[2] != "-" {
 		s.upScript = strings.Split(o.Strs[2], ",")
 	}
@@ -418,6 +419,12 @@ func runAgent(sc agentScript) (obs agentObs) {
 							continue
 						}
 						body := strings.Repeat("x", crng.Intn(60))
+						if sc.nostamp && crng.Intn(3) == 0 {
+							// no "[stamp] " prefix: the head extraction does not match and the stamp field stays empty; some are long
+							// enough for pooled backing buffers
+							fmt.Fprintf(w, "<14>1 2020-01-02T03:04:05.%06dZ host%d %s 77 src - NOSTAMP-%s %s\n", i, c, app, stamp, strings.Repeat("y", crng.Intn(3)*700))
+							continue
+						}
 						fmt.Fprintf(w, "<14>1 2020-01-02T03:04:05.%06dZ host%d %s 77 %s - [%s] %s\n", i, c, app, source, stamp, body)
 						mu.Lock()
 						if source == "filtered" {
@@ -720,7 +727,7 @@ type agentComp struct {
 }
 
 func init() {
-	for _, p := range []string{"c01", "c05", "c07", "c18", "c19"} {
+	for _, p := range []string{"c01", "c05", "c07", "c12", "c18", "c19"} {
 		p := p
 		register("agent-"+p, func() Component { return &agentComp{prop: p} })
 	}
@@ -758,6 +765,8 @@ func (a *agentComp) Oracle(c Case, impl []string) string {
 			msg = oracleC01(obs)
 		case "c05":
 			msg = oracleC05(obs)
+		case "c12":
+			msg = oracleC12(obs)
 		case "c18":
 			msg = oracleC18(obs)
 		case "c19":
@@ -876,6 +885,23 @@ func oracleC05(obs agentObs) string {
 		}
 	}
 	return ""
+}
+
+// C12: no field of one record appears in another: records sent without a stamp prefix must be delivered without a stamp
+// (the filtered and the stamped records around them, recycled through the record pool, carry one)
+func oracleC12(obs agentObs) string {
+	for _, ch := range obs.chunks {
+		for _, s := range ch.stamps {
+			p := strings.SplitN(s, "|", 3)
+			if len(p) >= 2 && strings.HasPrefix(p[1], "NOSTAMP-") && p[0] != "<nil>" {
+				return fmt.Sprintf("[key=e2e-stale-field] record %q was delivered with stamp %q, a value of another record", trunc120(p[1]), p[0])
+			}
+			if len(p) >= 2 && !strings.HasPrefix(p[1], "NOSTAMP-") && p[0] == "<nil>" && !strings.Contains(p[1], "probe") {
+				return fmt.Sprintf("[key=e2e-missing-field] record with message %q was delivered without its stamp", trunc120(p[1]))
+			}
+		}
+	}
+	return oracleC01(obs)
 }
 
 // C18: every graceful stop returns within the bound given by the (scaled) timeouts
@@ -998,6 +1024,10 @@ func (a *agentComp) Generate(rng *rand.Rand, n int, emit func(Case)) {
 				sc.apps = 1
 				sc.upScript = append([]string{"noack", "reset:1", "reset:0"}, sc.upScript...)
 			}
+		}
+		if a.prop == "c12" {
+			sc.nostamp = true
+			sc.upScript = nil
 		}
 		if a.prop == "c18" && i%2 == 0 {
 			sc.chatty = true
